@@ -5,6 +5,9 @@ ROOT = os.path.dirname(os.path.dirname(os.path.abspath(__file__)))
 
 # id -> (level category, technique, level text, level note, design ref)
 BUILT = {
+ "C38": ("exploration", "proptest statement lists executed by 1-3 cloned handles on real threads in a child process; recovered state vs live state at quiescence (kill and power-loss models)",
+         "Generated per-round statements (inserts, updates, deletes, two-statement transactions, near-TOAST values) committed concurrently on shared pages with wal=ON, synchronous=FULL; after the last commit the child dumps the live observation and exits without closing; the reopened directory (WAL replayed over the files) must equal the live observation, i.e. every page ends with its latest committed image and every touched page is covered by the log.",
+         "Real threads: the interleaving is not owned, so ordering races are found only probabilistically (overlap is measured and reported); a single-thread variant makes the coverage half of the property deterministic. A verdict must reproduce twice. Power-loss model is a listed finding.", "4 C38"),
  "C23": ("fault_enumeration", "proptest mutation of valid encodings per decoder + byte-level corruption of the files of a real database, in child processes; libFuzzer campaigns (ASan) in the thorough tier",
          "20 decoder targets (record + extract_row under generated schemas, index key, varint, JSONB, array, composite, catalog bytes and file, WAL segment incl. frames with a matching checksum over a damaged header, table/index/meta/HNSW file headers, HNSW page, page header, leaf, interior, a cursor walk over a tree with one corrupted page, TOAST pointer, spill rows): valid encodings from the public encoders or from the files of a database built through SQL, then bit flips, truncation, insert/delete/splice and length-field edits biased to header bytes, plus raw bytes. File corruption: a multi-table database (indexes, JSONB, TOAST values, HNSW index, deletes; a cleanly closed image and a crash image with a live WAL) gets 1..8 edits biased to file headers, page headers, slot arrays and cell areas or a truncation, then is opened and every scan / index probe runs. Each call must return a value or Err.",
          "Signature = decoder (source file) + enclosing function + message class; 20 unchecked accessors of JsonbView / ArrayView / CompositeView / HNSW pages, the TOAST total_size allocation and two non-termination defects (cyclic leaf chain, cyclic child pointer) are listed findings. A hang is exit 2 unless it is the listed one. Five bounds-check fixes are proposed as diffs.", "4 C23"),
